@@ -395,6 +395,15 @@ WriteAccept(k) ==
   /\ UNCHANGED <<cfg, sent, wsq, packed, net, eof, abuf, rbuf, roff, pending, pongleft, wcur, wlen, nwrites, wafter,
                  results, nerr, npend, ncancel, ntimeout>>
 
+\* the transport fails a write in the middle of (or before) a user frame - a write time limit that expires, a socket that is not
+\* ready, a reset: write() reports the error; what the transport had accepted of the frame stays accepted and NOTHING of that
+\* frame is offered again from its beginning (a retry from byte 0 would put the prefix on the wire twice)
+WriteFail ==
+  /\ WriteFailures /\ pc = "write" /\ ~IsWs
+  /\ pc' = "dead" /\ LogSeq(<<H("wfail", 0, ""), H("werr", wcur, "")>>)
+  /\ UNCHANGED <<cfg, sent, wsq, packed, net, eof, abuf, rbuf, roff, pending, pongleft, wcur, wleft, wlen, nwrites, wafter,
+                 out, units, held, blocked, nblock, results, nerr, npend, ncancel, ntimeout>>
+
 \* write-side back pressure on the websocket's socket: it stops / resumes accepting data (nobody is notified)
 WsBlock ==
   /\ IsWs /\ ~blocked /\ nblock < MaxBlock
@@ -439,7 +448,7 @@ Next ==
   \/ DoFillStream \/ FillUdpBuffered \/ FillUdpDirect \/ FillWs
   \/ FillEof \/ FillErr \/ FillPending \/ FillTimeout
   \/ DoPongWrite \/ PongPending \/ PongFinish \/ PongFail \/ Cancel
-  \/ DoWriteCall \/ DoHandshake \/ DoWriteAccept \/ WritePending \/ WsBlock \/ WsUnblock
+  \/ DoWriteCall \/ DoHandshake \/ DoWriteAccept \/ WritePending \/ WriteFail \/ WsBlock \/ WsUnblock
 
 Spec == Init /\ [][Next]_vars
 
@@ -514,8 +523,8 @@ WritesOk ==
         ELSE \/ (wt[i][2] = wt[i - 1][2] /\ wt[i][3] = wt[i - 1][3] + 1)
              \/ (wt[i][2] = wt[i - 1][2] + 1 /\ wt[i][3] = 1)
   \* a finished write left its whole frame behind
-  /\ (pc # "write" /\ ~wafter /\ nwrites > 0 /\ Len(wt) > 0) => wt[Len(wt)][3] = wlen
-  /\ (pc # "write" /\ ~wafter) => (IF Len(wt) = 0 THEN nwrites = 0 ELSE wt[Len(wt)][2] = nwrites)
+  /\ (pc # "write" /\ ~wafter /\ wleft = 0 /\ nwrites > 0 /\ Len(wt) > 0) => wt[Len(wt)][3] = wlen
+  /\ (pc # "write" /\ ~wafter /\ wleft = 0) => (IF Len(wt) = 0 THEN nwrites = 0 ELSE wt[Len(wt)][2] = nwrites)
 
 \* C06 C07 C19: what leaves is a sequence of whole frames (only the last may be unfinished): replies and
 \* user frames never interleave
